@@ -1,4 +1,5 @@
 import Litestream.Lemmas.PlanSort
+import Litestream.Gen.Plan
 /-!
 # C08 — Restore plans are valid chains and are found whenever one exists
 
@@ -319,6 +320,15 @@ theorem planFiles_reports_gap {fs P} (hwf : FilesWF fs) (h : planFiles fs ⟨0, 
     ¬ ∃ f ∈ fs, f.level < snapshotLevel ∧ chainEnd 0 P + 1 < f.min := by
   intro ⟨f, hf, hl, hlt⟩
   exact plan_reports_gap (listLevel_wf hwf) h ⟨f.level, hl, f, mem_listLevel.mpr ⟨hf, rfl⟩, hlt⟩
+
+/-! ### (T) ties: the decision functions regenerated from /repo on this run equal the model's -/
+
+theorem gen_better_eq (a b : FileInfo) : Gen.restoreCandidateBetter a b = better a b := by
+  first
+  | rfl
+  | (unfold Gen.restoreCandidateBetter better; repeat' split <;> simp_all <;> omega)
+
+theorem gen_snapshotLevel_eq : Gen.snapshotLevel = snapshotLevel := by decide
 
 /-! ### Non-vacuity: concrete instances meeting the hypotheses -/
 
